@@ -380,6 +380,35 @@ def rule_sniffing(ctx) -> None:
     ctx.chk.extra["der_lengths"] = {c: _ranges(D[c]) for c in D}
 
 
+CRYPTO_MODULES = ["spsdk/crypto/keys.py", "spsdk/crypto/certificate.py", "spsdk/crypto/signature_provider.py", "spsdk/crypto/crypto_types.py", "spsdk/crypto/utils.py"]
+CERT = "spsdk/crypto/certificate.py"
+
+
+def rule_forwarding(ctx) -> None:
+    """C08.override-forwarding: type-specific entry points hand every shared parameter to the generic implementation."""
+    from ..engines import superflow
+    n = superflow.check(ctx, "C08.override-forwarding", CRYPTO_MODULES)
+    if n < 8:
+        raise AnalysisError(f"C08.override-forwarding: only {n} delegating overrides found in the crypto modules (expected >= 8)")
+
+
+def rule_certificate(ctx) -> None:
+    """C08.certificate: a certificate signature is verified with the signed certificate's own hash, signature and TBS bytes under the issuer's key."""
+    chk = ctx.chk
+    for mn, subject, issuer in (("validate", "self", "issuer_certificate"), ("validate_subject", "subject_certificate", "self")):
+        f = ctx.own(CERT, "Certificate", mn)
+        vs = [c for c in ast.walk(f.node) if isinstance(c, ast.Call) and isinstance(c.func, ast.Attribute) and c.func.attr == "verify_signature"]
+        if len(vs) != 1:
+            raise AnalysisError(f"C08.certificate: verify_signature call of Certificate.{mn} not found")
+        c = vs[0]
+        args = [norm(A.inline_locals(f.node, a)) for a in c.args] + [f"{k.arg}={norm(A.inline_locals(f.node, k.value))}" for k in c.keywords]
+        want = [f"{subject}.signature", f"{subject}.tbs_certificate_bytes", f"EnumHashAlgorithm.from_label({subject}.signature_hash_algorithm.name)"]
+        key = norm(c.func.value)
+        chk.decide(args == want and key == f"{issuer}.get_public_key()", "C08.certificate", f.qual,
+                   f"issuer key verifies ({subject}.signature, {subject}.tbs_certificate_bytes) with the hash named in {subject}'s own signature algorithm",
+                   f"key `{key}`, arguments {args}", f"{issuer}.get_public_key().verify_signature({', '.join(want)})", A.loc(CERT, c))
+
+
 def run(ctx) -> None:
     ctx.chk.explain("C08: sign/verify parameter twins for RSA and ECC (hash, padding, Prehashed), PSS parameter binding (MGF1 hash = message hash, salt = digest length) followed through helpers, "
                     "fixed-width rule for every ECC to_bytes site, table agreement (coordinate lengths, default hashes, raw-length windows pairwise disjoint, encoding maps, private export/parse), "
@@ -390,6 +419,7 @@ def run(ctx) -> None:
     ctx.rule(rule_tables)
     ctx.rule(rule_provider)
     ctx.rule(rule_sniffing)
+    ctx.rule(rule_certificate)
     ctx.chk.assumptions = ["the `cryptography` primitives implement the named algorithms", "RSA moduli have their top bit set and the public exponent is 65537 (bit_length-based RSA lengths are then exact)",
                            "not decided: lossless round trip of every concrete key, rejection of modified signatures/messages (primitive security), PEM/DER container parsing inside `cryptography`"]
 
